@@ -43,6 +43,17 @@ def cases_for(prop):
 def _copy_tree(root, dst):
     for d in LIB_DIRS:
         shutil.copytree(os.path.join(root, d), os.path.join(dst, d), ignore=shutil.ignore_patterns('__pycache__', 'tests', 'data', '*.pyc'))
+    # the python sources of the projects (rules that follow class hierarchies into project code, e.g. C03.R11)
+    proj = os.path.join(root, 'pySDC', 'projects')
+    for dp, dn, fn in os.walk(proj):
+        dn[:] = [x for x in dn if x not in ('__pycache__', 'tests', 'data')]
+        for f in fn:
+            if f.endswith('.py'):
+                src = os.path.join(dp, f)
+                tgt = os.path.join(dst, os.path.relpath(src, root))
+                if not os.path.exists(tgt):
+                    os.makedirs(os.path.dirname(tgt), exist_ok=True)
+                    shutil.copyfile(src, tgt)
 
 
 def _run_case(args):
